@@ -645,7 +645,7 @@ fn run_c08(p: &Plan, rep: &mut RunReport) {
     if p.enumerate {
         let Ok(parsed) = ref_xorb_parse(&b.bytes) else { return };
         let fs = parsed.chunk_section_len;
-        // every byte of every chunk header and of the footer (+ trailing length): three flips each
+        // every byte of every chunk header and of the footer (+ trailing length)
         let mut offs: Vec<usize> = Vec::new();
         let mut pos = 0usize;
         for (_, payload, _) in &parsed.chunks {
@@ -653,9 +653,14 @@ fn run_c08(p: &Plan, rep: &mut RunReport) {
             pos += 8 + payload.len();
         }
         offs.extend(fs..b.bytes.len());
+        // hash bytes: three flips each; every other byte (chunk headers, idents, versions, counts, offsets, lengths):
+        // each single bit and all bits
+        let n = parsed.chunks.len();
+        let is_hash_byte = |o: usize| (o >= fs + 8 && o < fs + 40) || (o >= fs + 52 && o < fs + 52 + 32 * n);
         for o in &offs {
-            for mask in [0x01u8, 0x80, 0xFF] {
-                judge(rep, p, &b, &Mutation::Xor { off: *o as u64, mask }, &format!("flip {mask:#x} at {o}"));
+            let masks: &[u8] = if is_hash_byte(*o) { &[0x01, 0x80, 0xFF] } else { &[0x01, 0x02, 0x04, 0x08, 0x10, 0x20, 0x40, 0x80, 0xFF] };
+            for mask in masks {
+                judge(rep, p, &b, &Mutation::Xor { off: *o as u64, mask: *mask }, &format!("flip {mask:#x} at {o}"));
             }
         }
         for l in 0..b.bytes.len() {
@@ -733,7 +738,7 @@ fn gen(seed: u64, run: u64, focus: &str, tier: Tier) -> Plan {
             }
             Mutation::FooterEdit { versions, u32s }
         },
-        0 | 1 => Mutation::Xor { off: rng.next_u64(), mask: *rng.pick(&[1u8, 0x80, 0xFF, 0x10]) },
+        0 | 1 => Mutation::Xor { off: rng.next_u64(), mask: *rng.pick(&[1u8, 2, 4, 8, 0x10, 0x20, 0x40, 0x80, 0xFF]) },
         2 => Mutation::Truncate { len: rng.next_u64() },
         3 => Mutation::DropChunk { i: rng.below(16) as u32, refooter: rng.chance(1, 2) },
         4 => Mutation::DupChunk { i: rng.below(16) as u32, refooter: rng.chance(1, 2) },
@@ -829,7 +834,7 @@ impl Engine for XorbEngine {
         if focus == "C07" {
             "Each run: a seeded chunk list (1..600 chunks, one run in 150 (quick) or 50 (thorough) 600..8192 small chunks incl. 1151/1152/1153 and the 8192 maximum; lengths 1 B..128 KiB incl. every residue mod 4, random / compressible / float-like content) is serialised by the real code under None / LZ4 / BG4+LZ4 / automatic, parsed by the independent parser, and read back through a seekable reader with seeded short reads (whole object, every chunk range up to 12 chunks, sampled beyond) and through the three chunk decoders (sync short reads; tokio AsyncRead with short reads and Pending; Stream<Bytes> cut at seeded offsets incl. empty fragments). Non-trivial: a compressed scheme was actually stored and a reader delivered fragments. Distinct: (spec seed, scheme, reader seed, reader mode, chunk count).".into()
         } else {
-            "Each run: a valid xorb (with its own hash and with another hash) plus one seeded mutant (byte flip, truncation, dropped/duplicated/swapped chunks with or without a rebuilt footer, overwritten u32 footer fields incl. counts and section offsets, combined footer edits (section-version bytes together with u32 fields), stripped footer, appended bytes, random string); one run in 40 additionally enumerates, for an object of 1-4 small chunks, every single-byte flip (3 masks) of every chunk-header and footer byte, truncation at every offset, and every pair (one of the three version bytes set to 0 or 2) x (one u32 footer field zeroed, incremented or saturated). Both validators and the footer parser run under catch_unwind with a counting allocator; every acceptance is re-verified independently. Non-trivial: the mutant differs from the original and is at least 8 bytes long (parsing gets past the ident check). Distinct: (spec seed, mutation, enumerate).".into()
+            "Each run: a valid xorb (with its own hash and with another hash) plus one seeded mutant (byte flip, truncation, dropped/duplicated/swapped chunks with or without a rebuilt footer, overwritten u32 footer fields incl. counts and section offsets, combined footer edits (section-version bytes together with u32 fields), stripped footer, appended bytes, random string); one run in 40 additionally enumerates, for an object of 1-4 small chunks, every single-bit flip and the all-bits flip of every chunk-header and non-hash footer byte (3 masks for hash bytes), truncation at every offset, and every pair (one of the three version bytes set to 0 or 2) x (one u32 footer field zeroed, incremented or saturated). Both validators and the footer parser run under catch_unwind with a counting allocator; every acceptance is re-verified independently. Non-trivial: the mutant differs from the original and is at least 8 bytes long (parsing gets past the ident check). Distinct: (spec seed, mutation, enumerate).".into()
         }
     }
     fn real_vs_stub(&self) -> Value {
@@ -837,7 +842,7 @@ impl Engine for XorbEngine {
     }
     fn assumptions(&self, focus: &str) -> Vec<String> {
         if focus == "C08" {
-            vec!["Enumeration is complete over single-byte flips (3 masks) of header/footer bytes, over truncation offsets and over (version byte, u32 field) pairs for the enumerated small objects only; larger objects and multi-byte mutations are sampled.".into(), "C08.d decodes compressed chunks with /repo's own chunk decoder (uncompressed chunks are decoded independently).".into()]
+            vec!["Enumeration is complete over single-bit and all-bit flips of chunk-header and non-hash footer bytes (3 masks for hash bytes), over truncation offsets and over (version byte, u32 field) pairs for the enumerated small objects only; larger objects and multi-byte mutations are sampled.".into(), "C08.d decodes compressed chunks with /repo's own chunk decoder (uncompressed chunks are decoded independently).".into()]
         } else {
             vec!["Inputs are seeded generation; the simulated dimension is reader delivery (DESIGN §7 C07).".into()]
         }
